@@ -278,10 +278,15 @@ async fn do_take_rows(
             .buffered(builder.dataset.object_store.io_parallelism())
             .try_collect::<Vec<_>>()
             .await?;
-        let one_batch = if batches.len() > 1 {
-            concat_batches(&batches[0].schema(), &batches)?
-        } else {
-            batches.pop().unwrap()
+        let one_batch = match batches.len() {
+            // None of the requested fragments exists (any more) so no requested row does
+            0 => {
+                return Ok(RecordBatch::new_empty(Arc::new(
+                    builder.projection.output_schema()?,
+                )));
+            }
+            1 => batches.pop().unwrap(),
+            _ => concat_batches(&batches[0].schema(), &batches)?,
         };
         // Note: one_batch may contains fewer rows than the number of requested
         // row ids because some rows may have been deleted. Because of this, we
